@@ -123,11 +123,18 @@ def check_lifecycle(d, rs):
                 if i != len(recs) - 1:
                     raise Bad("records %s follow the reset of module %d in the same event" % (recs[i + 1:], m))
                 j = i
-                ids = []
+                ids, ended = [], []
+                while j > 0 and recs[j - 1][0] == R_TEND and recs[j - 1][4] == 2:
+                    j -= 1; ended.append(recs[j][2])
+                    if recs[j][3] != inc[m]:
+                        raise Bad("task %d of module %d is dropped as one of incarnation %d, the module is in incarnation %d"
+                                  % (recs[j][2], m, recs[j][3], inc[m]))
                 while j > 0 and recs[j - 1][0] == R_CANCEL:
                     j -= 1; ids.append(recs[j][2])
-                if any(x[0] == R_CANCEL for x in recs[:j]):
+                if any(x[0] == R_CANCEL or (x[0] == R_TEND and x[4] == 2) for x in recs[:j]):
                     raise Bad("a task of module %d was dropped before the end of the event" % m)
+                if sorted(ids) != sorted(ended):
+                    raise Bad("module %d: futures dropped %s, tasks reported as dropped %s" % (m, sorted(ids), sorted(ended)))
                 if len(set(ids)) != len(ids) or any(x >= len(d["mods"][m]["tasks"]) for x in ids):
                     raise Bad("cancelled task ids %s of module %d" % (ids, m))
                 inc[m] += 1; down[m] = True; reset_at[m] = now
